@@ -163,7 +163,7 @@ func init() {
 				r.Inconcl = append(r.Inconcl, fmt.Sprintf("strace observations missing: %v", r.Counters))
 			}
 		},
-		Rule: "the harness is the host: the scripted plugin binary is executed directly with cookie variable {unset, empty, prefix, suffix, case change, other, padded, correct} x configured cookie {normal, empty key, empty value} x protocol x TLS mode {none, TLSProvider, PLUGIN_CLIENT_CERT given} x set layout x PLUGIN_MULTIPLEX_GRPC {unset, empty, true, false, junk}; raw stdout/stderr/exit status are read, the private sandbox is listed, the announced address is dialled at once, and strace (bind, listen, write) gives the syscall order: every refusal run is traced (a transient listener is only visible there), serving runs on a sample (all in thorough). Class = the full cell + traced",
+		Rule:        "the harness is the host: the scripted plugin binary is executed directly with cookie variable {unset, empty, prefix, suffix, case change, other, padded, correct} x configured cookie {normal, empty key, empty value} x protocol x TLS mode {none, TLSProvider, PLUGIN_CLIENT_CERT given} x set layout x PLUGIN_MULTIPLEX_GRPC {unset, empty, true, false, junk}; raw stdout/stderr/exit status are read, the private sandbox is listed, the announced address is dialled at once, and strace (bind, listen, write) gives the syscall order: every refusal run is traced (a transient listener is only visible there), serving runs on a sample (all in thorough). Class = the full cell + traced",
 		Assumptions: []string{"strace -f is available (it is in this sandbox); a traced run in which no write to fd 1 is seen is inconclusive", "'seven fields only when the host signalled it' = PLUGIN_MULTIPLEX_GRPC non-empty"},
 	})
 }
